@@ -201,7 +201,7 @@ pub fn run(ctx: &Ctx) -> Report {
 
     // (b)+(c) well-formed documents with ground truth
     let mut r = ctx.rng("c17-faithful");
-    let n = if ctx.want("docs") { ctx.count(30_000, 1_000_000) } else { 0 };
+    let n = if ctx.want("docs") { ctx.count(600_000, 3_000_000) } else { 0 };
     for k in 0..n {
         let t = gen_truth(&mut r);
         let doc = build_doc(&t, &mut r, true);
@@ -241,7 +241,7 @@ pub fn run(ctx: &Ctx) -> Report {
 
     // (a) totality: mutated torrents, random delimiter soup, then (c) on whatever is accepted
     let mut r = ctx.rng("c17-total");
-    let n = if ctx.want("totality") { ctx.count(40_000, 1_500_000) } else { 0 };
+    let n = if ctx.want("totality") { ctx.count(800_000, 4_000_000) } else { 0 };
     for _ in 0..n {
         let mut doc = if r.chance(3, 4) {
             let mut t = gen_truth(&mut r);
